@@ -463,11 +463,7 @@ def Data.at : Data → Path → Option Data
     | none => none
   | _, _ => none
 
-/-- Full statement of the null/error correspondence over a whole response: kept visible; the proved parts are
-    the local theorems above (`resolver_error_null_one_error`, `nonnull_violation_null_one_error`,
-    `nonnull_ok_no_error`, `nullable_null_no_error`) and the compositionality of siblings and list items. What
-    is missing is the global induction that threads response paths through `executeFields` (every error path
-    extends the path of the call that produced it). It is exercised by the correspondence on every request. -/
+/-- The null/error correspondence over a whole response. PROVED in `Props/C04_nulls.lean` (`null_error_bijection`). -/
 def NullErrorBijection (s : SchemaD) (doc : Doc) (vars : Vars) (w : World) (cf fuel : Nat) (root : String) (sels : List Sel) : Prop :=
   ∀ d es, executeFields s doc vars w cf fuel root [] sels = .ok (d, es) →
     (es.map (·.path)).Nodup ∧ ∀ e ∈ es, Data.at d e.path = some .null
